@@ -2,6 +2,7 @@
    All statements quantify over EVERY request reader [read_req], EVERY response writer [write_out]
    (result + bytes the socket accepted) and every connection state; sequences by induction. *)
 From SV Require Import Base.Bytes Base.IO Model.Conn Spec.ConnSpec Proofs.ConnP.
+From SV Require Tie.ReadBodyTie.
 From SV Require Import Base.SrcAst Generated.SourceParams Tie.ConnTie Tie.ConnGuardTie Tie.WriteResponseTie.
 
 Section C05.
@@ -162,6 +163,24 @@ Proof. exact machine_write_response_tie. Qed.
 Theorem c05_write_response_translation_complete : src_problems_write_response = 0%nat.
 Proof. exact write_response_translated. Qed.
 
+(* C05.src-body  HttpConn::read_body_to_vec and read_body_to_file (src/http_conn.rs) as TRANSLATED ON THIS RUN -- the arms
+   of `match self.read_state` in source order with their patterns (the chunked / gzip refusal, the `if len > max_len`
+   guard), errors and statements (the interim 100 Continue, the read state set BEFORE the read, Shutdown after a failed
+   read) -- interpreted by Tie/ReadBodyTie.v over the connection machine, are the machine's body readers for every
+   connection state, input, limit and cache-directory condition *)
+Theorem c05_read_body_to_vec_is_the_source :
+  forall (resp : Type) resp_code write_out resp_continue c,
+    Tie.ReadBodyTie.eval_read_body resp resp_code write_out resp_continue Generated.SourceParams.src_read_body_to_vec None true c
+    = Model.Conn.read_body_to_vec resp resp_code write_out resp_continue true c.
+Proof. exact Tie.ReadBodyTie.read_body_to_vec_tie. Qed.
+Theorem c05_read_body_to_file_is_the_source :
+  forall (resp : Type) resp_code write_out resp_continue c dir_ok max_len,
+    Tie.ReadBodyTie.eval_read_body resp resp_code write_out resp_continue Generated.SourceParams.src_read_body_to_file (Some max_len) dir_ok c
+    = Model.Conn.read_body_to_file resp resp_code write_out resp_continue true c dir_ok max_len.
+Proof. exact Tie.ReadBodyTie.read_body_to_file_tie. Qed.
+Theorem c05_read_body_translation_complete : Generated.SourceParams.src_problems_read_body = 0%nat.
+Proof. exact Tie.ReadBodyTie.read_body_translated. Qed.
+
 Print Assumptions c05_misuse_unchanged.
 Print Assumptions c05_wire_effect.
 Print Assumptions c05_nothing_after_shutdown.
@@ -183,3 +202,6 @@ Print Assumptions c05_source_write_response_guards.
 Print Assumptions c05_guards_translation_complete.
 Print Assumptions c05_write_response_is_the_source.
 Print Assumptions c05_write_response_translation_complete.
+Print Assumptions c05_read_body_to_vec_is_the_source.
+Print Assumptions c05_read_body_to_file_is_the_source.
+Print Assumptions c05_read_body_translation_complete.
